@@ -849,51 +849,6 @@ theorem remove_is_events (ttl now : Nat) (s : Store) (ids : List String) :
   | nil => rfl
   | cons r rs ih => simpa [remove, run, step] using ih (remove1 s r)
 
-/-! ### the model's decisions ARE the expressions of the working tree (`Gen.Src`, regenerated every run) -/
-
-/-- the TTL test of the model is the condition of `viewResults` … -/
-theorem expired_matches_source_view (ttl now : Nat) (e : Entry) :
-    expired ttl now e = Gen.Src.c10ViewExpired (now - e.addedAt) ttl := rfl
-
-/-- … and of `gc` -/
-theorem expired_matches_source_gc (ttl now : Nat) (e : Entry) :
-    expired ttl now e = Gen.Src.c10GcExpired (now - e.addedAt) ttl := rfl
-
-/-- `viewResults` skips exactly the entries its `if` condition selects -/
-theorem view_matches_source (ttl now : Nat) (s : Store) :
-    view ttl now s =
-      (s.filter (fun p => !Gen.Src.c10ViewExpired (now - p.2.addedAt) ttl)).map (·.2.data) := rfl
-
-/-- `gc` deletes exactly the entries its `if` condition selects -/
-theorem gc_matches_source (ttl now : Nat) (s : Store) :
-    gc ttl now s = s.filter (fun p => !Gen.Src.c10GcExpired (now - p.2.addedAt) ttl) := rfl
-
-/-- one iteration of `Add`: both `if` conditions, in the order of the source.  (`v` is the zero
-value when `!ok`; the first condition is then true whatever the age.) -/
-theorem add1_matches_source (ttl now : Nat) (s : Store) (r : CheckResult) :
-    add1 ttl now s r =
-      match get s r.workID with
-      | none =>
-        if Gen.Src.c10AddMissingOrDead false now ttl then set s r.workID ⟨r, now⟩ else s
-      | some v =>
-        if Gen.Src.c10AddMissingOrDead true (now - v.addedAt) ttl then set s r.workID ⟨r, now⟩
-        else if Gen.Src.c10AddReplaces (blk v.data) (blk r) then set s r.workID ⟨r, now⟩
-        else s := by
-  simp only [add1, Gen.Src.c10AddMissingOrDead, Gen.Src.c10AddReplaces, expired]
-  cases get s r.workID with
-  | none => simp
-  | some v => simp
-
-/-- `remove`: the early return is taken exactly when the key is absent -/
-theorem remove1_matches_source (s : Store) (id : String) :
-    remove1 s id = if Gen.Src.c10RemoveAbsent (get s id).isSome then s else erase s id := by
-  simp only [remove1, Gen.Src.c10RemoveAbsent]
-  cases get s id <;> simp
-
-/-- the eligible post-processor hands on exactly the results its `if` condition selects -/
-theorem postProcess_matches_source (ttl now : Nat) (s : Store) (rs : List CheckResult) :
-    postProcess ttl now s rs = add ttl now s (rs.filter (fun r => Gen.Src.c10Eligible r.pes r.eligible)) := rfl
-
 /-! ### the residual case, and the pinned tree (witnesses) -/
 
 private def res (w : String) (b : Nat) : CheckResult :=
